@@ -185,13 +185,18 @@ fit_spline_1d(std::ranges::sized_range auto && dt_r, std::ranges::sized_range au
     //   min_{x : Ax = b}  (1/2) x' Q x
     // by solving the KKT equations
     //   [Q A'; A 0] [x; l] =   [0; b]
-    // via LDLt factorization
+    // via a pivoted sparse LU factorization. The KKT matrix is symmetric but indefinite, and its
+    // Q block scales like dt^(1 - 2D): an LDLt factorization without pivoting loses all accuracy
+    // for sub-second sampling intervals (interpolation error 0.3 at dt = 0.05).
 
     Eigen::SparseMatrix<double> H(N_coef + N_eq, N_coef + N_eq);
 
     Eigen::Matrix<int, -1, 1> H_pattern(N_coef + N_eq);
     for (auto i = 0u; i != N_coef; ++i) { H_pattern(i) = (K + 1) + A.outerIndexPtr()[i + 1] - A.outerIndexPtr()[i]; }
     H_pattern.tail(N_eq).setZero();
+    for (auto col = 0u; col != N_coef; ++col) {
+      for (typename decltype(A)::InnerIterator it(A, col); it; ++it) { ++H_pattern(N_coef + it.index()); }
+    }
 
     H.reserve(H_pattern);
 
@@ -207,6 +212,7 @@ fit_spline_1d(std::ranges::sized_range auto && dt_r, std::ranges::sized_range au
     for (auto col = 0u; col != N_coef; ++col) {
       for (typename decltype(A)::InnerIterator it(A, col); it; ++it) {
         H.insert(N_coef + it.index(), col) = it.value();
+        H.insert(col, N_coef + it.index()) = it.value();
       }
     }
 
@@ -216,8 +222,8 @@ fit_spline_1d(std::ranges::sized_range auto && dt_r, std::ranges::sized_range au
     rhs.head(N_coef).setZero();
     rhs.tail(N_eq) = b;
 
-    const Eigen::SimplicialLDLT<decltype(H), Eigen::Lower> ldlt(H);
-    return ldlt.solve(rhs).head(N_coef);
+    const Eigen::SparseLU<decltype(H)> lu(H);
+    return lu.solve(rhs).head(N_coef);
   }
 }
 
